@@ -227,6 +227,25 @@ def tiny_contains(t, z):
     return dx * dx + dy * dy <= t["radius"] * t["radius"]
 
 
+class ExactRoots:
+    """Stand-in for the oracle on polynomials far outside its practical range (roots scaled by 10^+-120): the case
+    was built as lead * prod (x - z_j) from exact Gaussian rationals; this is re-verified here coefficient by coefficient,
+    so the roots and multiplicities are known exactly and every query is plain rational arithmetic."""
+    def __init__(self, case):
+        cnt = collections.Counter(case["roots"])
+        P = S.poly_from_roots(case["roots"])
+        lead = case["coeffs"][-1]
+        self.ok = len(P) == len(case["coeffs"]) and all(S.cmul(lead, a) == b for a, b in zip(P, case["coeffs"]))
+        self.roots = [{"re": z[0], "im": z[1], "radius": F0, "mult": m} for z, m in cnt.items()]
+    def sides(self, kind):
+        v = {"re": lambda t: t["re"], "im": lambda t: t["im"], "unit": lambda t: t["re"] ** 2 + t["im"] ** 2 - 1}[kind]
+        return ["+" if v(t) > 0 else "-" if v(t) < 0 else "0" for t in self.roots]
+    def real_flags(self): return [t["im"] == 0 for t in self.roots]
+    def cover(self, discs):
+        return [[j for j, d in enumerate(discs) if (d[0] - t["re"]) ** 2 + (d[1] - t["im"]) ** 2 <= d[2] * d[2]] for t in self.roots]
+    def close(self): pass
+
+
 def root_facts(case, orc, qinfo):
     """per certified root: side facts (exact when the root is identified with a constructed root)"""
     tiny = orc.roots
@@ -318,7 +337,9 @@ def judge(viol, case, opts, res, orc, facts, stats, tally):
         for jj in lst:
             j = usable[jj]
             centre = info_exact((discs[j][0], discs[j][1]))
-            tag = "set=%s:alg=%s:phase=%s:centre(re%s,im%s,unit%s)" % (st, alg, ph, centre["re"], centre["im"], centre["unit"])
+            # unit-circle sets: a radius below 2^-mpwp means mps_mtouchunit's modulus (computed at s->mpwp bits) is rounding noise
+            sub = ":radius<2^-mpwp" if (st in "io" and discs[j][2] < Fr(1, 1 << min(4000, max(1, res.meta.get("mpwp", 64))))) else ""
+            tag = "set=%s:alg=%s:phase=%s%s:centre(re%s,im%s,unit%s)" % (st, alg, ph, sub, centre["re"], centre["im"], centre["unit"])
             where = lambda: "%s root %d (disc centre %s, radius %s; certified root ~ %s%s), opts %s" % (
                 case["name"], j, e2e.fdisc(discs[j])[:2], e2e.fdisc(discs[j])[2], e2e.fdisc((orc.roots[k]["re"], orc.roots[k]["im"], F0))[:2],
                 " = %s exactly" % (tuple(str(x) for x in f["z"]),) if f.get("z") else "", opts)
@@ -434,12 +455,14 @@ def run(ctx):
     targets = []
     for nm in names:
         t = min(e2e.min_radius_log2(S.discs_of(results[i])) for i in per_case[nm]) - 16
-        targets.append(max(min(t, -8), -(ctx.pick(1900, 2600) if byname[nm].get("scaled") else maxbits)))
-    oracles = [Oracle(byname[nm]["coeffs"]) for nm in names]
+        targets.append(max(min(t, -8), -maxbits))
+    oracles = [ExactRoots(byname[nm]) if byname[nm].get("scaled") and byname[nm].get("roots") else Oracle(byname[nm]["coeffs"]) for nm in names]
+    real = [i for i, o in enumerate(oracles) if isinstance(o, Oracle)]
+    oks = [getattr(o, "ok", False) for o in oracles]
     try:
-        oks = certify_all(oracles, target_radius_log2=targets, workers=16, timeout=300)
+        for i, ok in zip(real, certify_all([oracles[i] for i in real], target_radius_log2=[targets[i] for i in real], workers=16, timeout=300)): oks[i] = ok
     except Exception as e:
-        oks = [False] * len(oracles); ctx.notes.append("certify_all failed: %r" % (e,))
+        ctx.notes.append("certify_all failed: %r" % (e,))
     ctx.log("certified %d of %d polynomials" % (sum(oks), len(oks)))
     evaluations = 0; nontrivial = set(); samples = []
 
@@ -497,6 +520,7 @@ def run(ctx):
            "trusted_base": ["Coq 8.16.1 kernel; C08 theorems use the stdlib real-number axioms only (see axioms_used); the root oracle's theorems are axiom-free",
                             "extraction (ExtrOcamlBasic, ExtrOcamlNativeString) + ocaml/cert_driver.ml (oracle)",
                             "harness/vf_solve.c export + lib/solve.py parser; lib/oracle.py client; mpmath/sympy only as untrusted hint provider",
+                            "polynomials with roots scaled beyond the double range (class scaled-beyond-double-range) are judged without the oracle: the input is re-verified to be lead*prod(x - z_j) for the constructed exact roots and every containment / side test is exact rational arithmetic in Python",
                             "Python Fractions: identification of a certified root with a constructed exact root (the root lies in the certified tiny disc holding exactly mult roots), sign tests on exact rationals",
                             "the touch tests and update_inclusions are modelled in Coq over exact numbers with abstract touch outcomes; the floating/DPE arithmetic inside the touch tests is validated end to end by the runs, not verified"]}
     return ctx.finish("proof", cov, ["imaginary/real detection through the separation bound (log r < sep - n lmax) is only validated empirically (theorem C08_sep_branch_partial takes the root bound as hypothesis)",
